@@ -28,7 +28,12 @@ func vpWorkFiles(n, depth, maxc, maxContent int) []vpFile {
 		if zzvp.Param("contentfixed", 0) == 0 {
 			cl = zzvp.Choose(maxContent + 1) // lengths 0..maxContent; with contentfixed=1 exactly maxContent bytes
 		}
-		c := zzvp.Bytes("c"+id, cl, "")
+		var c []byte
+		if zzvp.Param("concontent", 0) == 1 {
+			c = []byte{byte('A' + i)} // fixed, pairwise distinct bytes (the harness varies contents elsewhere)
+		} else {
+			c = zzvp.Bytes("c"+id, cl, "")
+		}
 		zzvp.WriteFile(zzvp.Root()+"/"+p, c)
 		fs = append(fs, vpFile{p, c})
 	}
